@@ -288,6 +288,15 @@ CHECKS['C17']['text'] += (" Each measurement is recorded under the measured qubi
                           "end-of-run collection releases their referrers inside the run.")
 CHECKS['C20']['text'] += " Between reading a listed file name and comparing it with the asset name only a leading '*' and a leading \"./\" may be removed (fixed-length erase under an exact prefix test)."
 
+CHECKS['C03']['text'] += " No destructor body is reachable after a release of the object's qubit fields."
+CHECKS['C07']['text'] += (" R07.11: an int bound to a slot declared long is widened at every binding site (one widening function, called by every class-stamping function and before every store "
+                          "in assign). Casts are evaluated with 32-bit narrowing modelled.")
+CHECKS['C11']['text'] += " Seeding and fixpoint are read by phase (running / end of run); neither may test the mark bit in the running phase."
+CHECKS['C14']['text'] += " R14.8: parseStatement evaluated abstractly on 19 statement starts: declarations (final passed on), the stray-final error, assignment, call and every keyword reach their production."
+CHECKS['C16']['text'] += " numericPromotion evaluated on all pairs (float before long before int before bit)."
+CHECKS['C17']['text'] += " The probability divisor is written by its accumulation only."
+CHECKS['C18']['text'] += " The per-shot presentation switches (echo, warn-at-exit) guard output only."
+
 NOT_YET = "check not yet built in this round (framework under construction; see DESIGN.md §4 for the planned static rules)"
 
 
